@@ -116,6 +116,8 @@ impl OligoComputer {
                     let result = buffer
                         .par_iter()
                         .map(|seq| {
+                            #[cfg(feature = "verif")]
+                            ktio::verif::point("oligo.batch.map", seq.n);
                             let kvec = self.vectorise_one(&seq.seq);
                             let kvec_str: Vec<String> = kvec
                                 .iter()
@@ -195,6 +197,8 @@ impl OligoComputer {
                     loop {
                         let record = { records_arc_clone.lock().unwrap().next() };
                         if let Some(record) = record {
+                            #[cfg(feature = "verif")]
+                            ktio::verif::point("oligo.mmap.taken", record.n);
                             let kvec = self.vectorise_one(&record.seq);
                             // optimise this with pre-sized string
                             let kvec_str: Vec<String> = kvec
@@ -208,6 +212,8 @@ impl OligoComputer {
                             }
                         } else {
                             // end of iteration
+                            #[cfg(feature = "verif")]
+                            ktio::verif::point("oligo.mmap.exit", usize::MAX);
                             break;
                         }
                     }
@@ -236,6 +242,27 @@ impl OligoComputer {
             vec.iter_mut().for_each(|el| *el /= f64::max(1_f64, total));
         }
         vec
+    }
+}
+
+// wrappers for an external verification harness: force either writer with
+// identical settings and expose the per-sequence routine and the header
+#[cfg(feature = "verif")]
+impl OligoComputer {
+    pub fn verif_vectorise_mmap(&self) -> Result<(), String> {
+        self.vectorise_mmap()
+    }
+
+    pub fn verif_vectorise_batch(&self) -> Result<(), String> {
+        self.vectorise_batch()
+    }
+
+    pub fn verif_vectorise_one(&self, seq: &[u8]) -> Vec<f64> {
+        self.vectorise_one(seq)
+    }
+
+    pub fn verif_get_header(&self) -> Vec<String> {
+        self.get_header()
     }
 }
 
